@@ -7,6 +7,7 @@ use crate::util::*;
 use crate::vint::{VInt, VIntOps, VF};
 use num_traits::{One, Zero};
 use yui::{EucRing, EucRingOps, Ring, RingOps};
+use yui::poly::Mono;
 use yui_homology::{ChainComplexTrait, GridTrait, SummandTrait};
 use yui_kh::kh::{KhComplex, KhHomology};
 use yui_link::Link;
@@ -23,6 +24,9 @@ pub enum Mode {
     Homology,
     /// d∘d = 0 and degree of d, on the complex as returned
     ChainComplex,
+    /// C05 (c): the complex built over Z[H,T] and evaluated at (h,t) has the homology of the complex built at (h,t);
+    /// C05 (b): its differential is q-homogeneous with deg H = -2, deg T = -4
+    Specialise,
     /// kernel obligation: closed dotted surfaces of genus g evaluate to eps((2X-h)^g X^x (X-h)^y) in A = R[X]/(X^2-hX-t)
     EvalKernel,
 }
@@ -166,6 +170,53 @@ impl Harness for Kh {
                 }
             }
             Mode::EvalKernel => unreachable!(),
+            Mode::Specialise => {
+                type P<I> = yui::poly::Poly2<'H', 'T', I>;
+                let (ph, pt): (P<I>, P<I>) = (P::<I>::variable(0), if self.reduced { P::<I>::zero() } else { P::<I>::variable(1) });
+                let cp = KhComplex::<P<I>>::new(&link, &ph, &pt, self.reduced);
+                let sup: Vec<isize> = cp.support().collect();
+                let mut gens: Vec<Vec<khref::RefGen>> = Vec::new();
+                let mut ds: Vec<khref::Grid<I>> = Vec::new();
+                for (k, &i) in sup.iter().enumerate() {
+                    let n = cp.rank(i);
+                    gens.push((0..n).map(|_| khref::RefGen { state: vec![], label: vec![], h: i, q: 0 }).collect());
+                    if k + 1 < sup.len() {
+                        let d = cp.d_matrix(i);
+                        let g = sp_to_grid::<P<I>>(&d);
+                        // (b) q-homogeneity: an entry c H^a T^b from generator x to generator y needs q(y) - q(x) = 2a + 4b
+                        let (src, tgt) = (cp[i].raw_gens(), cp[i + 1].raw_gens());
+                        for (r, row) in g.iter().enumerate() {
+                            for (c, e) in row.iter().enumerate() {
+                                for (mono, coef) in e.iter() {
+                                    let (a, b) = mono.deg();
+                                    let (qx, qy) = (src.iter().nth(c).unwrap().q_deg(), tgt.iter().nth(r).unwrap().q_deg());
+                                    I::oblige(&format!("q-homogeneous entry [{},{}] of d_{} (H^{} T^{}, q {} -> {})", r, c, i, a, b, qx, qy),
+                                        VF::Or(vec![VF::zero(coef.clone()), VF::of_bool(qy - qx == 2 * a as isize + 4 * b as isize)]));
+                                }
+                            }
+                        }
+                        // (c) evaluate at the symbolic point
+                        ds.push(g.iter().map(|row| row.iter().map(|e| e.eval(&h, &t)).collect()).collect());
+                    }
+                }
+                let rc = khref::RefComplex { h_min: *sup.first().unwrap_or(&0), gens, d: ds };
+                let sig = khref::homology_signature(&rc, &|x: &I| num_traits::Signed::abs(&x.shadow()));
+                let kh = c.homology();
+                let lib: Vec<(isize, usize, Vec<I>)> = kh.support().map(|i| (i, kh[i].rank(), kh[i].tors().to_vec())).collect();
+                let mut degs: std::collections::BTreeSet<isize> = sig.iter().map(|s| s.0).collect();
+                degs.extend(lib.iter().map(|s| s.0));
+                for i in degs {
+                    let (rr, rt) = sig.iter().find(|s| s.0 == i).map(|s| (s.1, s.2.clone())).unwrap_or((0, vec![]));
+                    let (lr, lt) = lib.iter().find(|s| s.0 == i).map(|s| (s.1, s.2.clone())).unwrap_or((0, vec![]));
+                    I::oblige(&format!("specialisation: free rank in degree {} (direct {}, evaluated {})", i, lr, rr), VF::of_bool(lr == rr));
+                    I::oblige(&format!("specialisation: torsion count in degree {} (direct {}, evaluated {})", i, lt.len(), rt.len()), VF::of_bool(lt.len() == rt.len()));
+                    if lt.len() == rt.len() {
+                        for (a, b) in lt.iter().zip(&rt) {
+                            I::oblige(&format!("specialisation: torsion factor in degree {} associate", i), VF::Or(vec![VF::zero(a - b), VF::zero(a + b)]));
+                        }
+                    }
+                }
+            }
             Mode::Homology => {
                 if self.ring == crate::props::c09::RingSel::Q {
                     let (hq, tq) = (yui::Ratio::from(h.clone()), yui::Ratio::from(t.clone()));
@@ -235,6 +286,11 @@ pub fn configs_c05a(tier: crate::registry::Tier, _seed: u64) -> Vec<crate::regis
             v.push(entry(Kh { ring: crate::props::c09::RingSel::Z, name, pd: pd.clone(), mirror, reduced: false, b: None, mode: Mode::ChainComplex }, 60, 120.0));
             if knot {
                 v.push(entry(Kh { ring: crate::props::c09::RingSel::Z, name, pd: pd.clone(), mirror, reduced: true, b: None, mode: Mode::ChainComplex }, 60, 120.0));
+            }
+            // (b), (c): polynomial parameters, then evaluation at a symbolic point of the box
+            v.push(entry(Kh { ring: crate::props::c09::RingSel::Z, name, pd: pd.clone(), mirror, reduced: false, b: Some(2), mode: Mode::Specialise }, 100, 150.0));
+            if knot {
+                v.push(entry(Kh { ring: crate::props::c09::RingSel::Z, name, pd: pd.clone(), mirror, reduced: true, b: Some(3), mode: Mode::Specialise }, 100, 150.0));
             }
         }
     }
